@@ -85,9 +85,9 @@ TOOL_ENV = {"ASAN_OPTIONS": "detect_leaks=0:abort_on_error=0:exitcode=99:allocat
 MSGS = ["tools.msg", "cmdarg.msg", "ioerrs.msg"]
 
 SIZES = {  # tier -> sample sizes
-    "quick": dict(generic=6000, data=900, data_cpus=18, plant=100, toolruns=650, hex=120, trace=1500,
+    "quick": dict(generic=6000, data=900, data_cpus=18, plant=100, hist=1700, toolruns=650, hex=120, trace=1500,
                   t_asl=12, t_tool=1.5),
-    "thorough": dict(generic=60000, data=20000, data_cpus=10 ** 9, plant=3000, toolruns=10 ** 9, hex=10 ** 9,
+    "thorough": dict(generic=60000, data=20000, data_cpus=10 ** 9, plant=3000, hist=30000, toolruns=10 ** 9, hex=10 ** 9,
                      trace=20000, t_asl=30, t_tool=3),
 }
 
@@ -301,7 +301,13 @@ def main(tier):
             raise CheckError("HexReader violates its invariants: %s" % hx.violation[:500])
         rep.model("HexReader", hx)
         hexfiles = [x for (t, x) in hx.printed if t == "OUT"]
-    rep.part("generation", asl_cases=len(cases), code_files=len(cfiles), hex_files=len(hexfiles))
+        hg = tlc.must(tlc.run("NegHist_Gen", "NegHist_GenQ.cfg" if tier == "quick" else "NegHist_Gen.cfg", workers=1,
+                              timeout=1500, mem="8g"), "NegHist_Gen")
+        if hg.violation:
+            raise CheckError("NegHist_Gen: the design of the stateful structures violates its invariants: %s" % hg.violation[:500])
+        rep.model("NegHist_Gen", hg)
+        hists = [c for (t, c) in hg.printed if t == "TR"]
+    rep.part("generation", asl_cases=len(cases), histories=len(hists), code_files=len(cfiles), hex_files=len(hexfiles))
 
     # cross-check of the independent Python reader/writer against the specification (binding of the two readers)
     from vlib import codefile
@@ -465,6 +471,38 @@ def main(tier):
     if pm:
         rep.sample({"planted_into": pm[0][1], "line": pm[0][2], "case": pm[0][0]})
 
+    # ---- asl: histories of stateful statements (NegHist) ---------------------------------------------------
+    hs_ = stratified(hists, sz["hist"], rng("c03/hist"),
+                     lambda c: (c["fam"], tuple(c["shape"]), json.dumps(c["stmts"][-1], sort_keys=True)))
+    qj, qm = [], []
+    for i, c in enumerate(hs_):
+        cpu = c03lib.HIST_CPUS[i % len(c03lib.HIST_CPUS)]
+        src = c03lib.hist_source(c, cpu)
+        qj.append({"files": {"a.asm": src}, "cmd": ["asl", "-q", "a.asm"], "timeout": sz["t_asl"]})
+        qm.append((c, cpu, src))
+    with Phase("asl histories: %d cases" % len(qj)):
+        qres = c03run.run_jobs(bld, qj)
+    hdrift = {}
+    for (c, cpu, src), j, res in zip(qm, qj, qres):
+        rep.evaluated()
+        rep.distinct(src, True)
+        fail = c03run.failure(res, asl_doc)
+        kinds = [st["k"] for st in c["stmts"]]
+        if fail:
+            key = {"tool": "asl", "hist": c["fam"], "fail": fail, "where": c03run.where(res), "last": kinds[-1],
+                   "len": len(kinds), "string_pushed": any(k in ("PUSHS", "PUSH2") for k in kinds),
+                   "string_set": "SETS" in kinds}
+            conf.add("asl %s on the %s history %s (cpu %s): %s" % (fail, c["fam"], " ; ".join(
+                l.strip() for st_i, st in enumerate(c["stmts"], 1) for l in c03lib.render_hist_stmt(c["fam"], st, st_i))[:200],
+                cpu, res["san"] or res["err"][-200:]), key, j, c, {"a.asm": src})
+        elif res["rc"] not in c["allowed"]:
+            dk = (c["fam"], kinds[-1], tuple(c["allowed"]), res["rc"])
+            hdrift[dk] = hdrift.get(dk, 0) + 1
+    for dk in sorted(hdrift, key=lambda k: -hdrift[k])[:8]:
+        rep.drift("history %s ending in %s: model allows %s, asl exits %s (%d cases)" % (dk[0], dk[1], list(dk[2]), dk[3], hdrift[dk]))
+    if qm:
+        rep.sample({"history": qm[len(qm) // 2][0], "rendered": qm[len(qm) // 2][2]})
+
     # ---- tools: generated code files --------------------------------------------------------------------------
     tj, tm = [], []
     pairs = [(x, t) for x in cfiles for t in TOOLS]
@@ -473,6 +511,17 @@ def main(tier):
         tj.append({"files": {"x.p": bytes(x["bytes"])}, "cmd": TOOLS[t], "timeout": sz["t_tool"],
                    "msglinks": [t + ".msg"] + MSGS, "env": TOOL_ENV})
         tm.append((x, t))
+    # option class of the tools that filter by CPU header: 0 / 60 / 120 / 180 / 256 distinct -f values over several options
+    okfile = [x for x in cfiles if x["fault"]["k"] == "none"][0]
+    for t in ("pbind", "p2bin", "p2hex"):
+        for nvals in (0, 60, 120, 180, 256):
+            opts = []
+            for lo in range(0, nvals, 60):
+                opts += ["-f", ",".join("$%x" % v for v in range(lo, min(lo + 60, nvals)))]
+            tj.append({"files": {"x.p": bytes(okfile["bytes"])}, "cmd": TOOLS[t] + opts, "timeout": sz["t_tool"],
+                       "msglinks": [t + ".msg"] + MSGS, "env": TOOL_ENV})
+            tm.append((dict(okfile, fault={"k": "option-f%d" % nvals, "off": 0}, field="cmdline", **{"class": "tolerated"},
+                            expected=[0, 1, 2, 3]), t))
     with Phase("tools: %d runs" % len(tj)):
         tres = c03run.run_jobs(bld, tj)
     nrej_ok = {}
